@@ -545,6 +545,15 @@ func c12RunEntryPoints(c *run.Ctx, dir, dirX, dirB, desc string, rawFile []byte,
 				}
 			}
 		}
+		// queries on the engine filled object by object (nothing was resolved up front on this route: namespaces without manifest,
+		// policies inserted before the pods they select ...)
+		for _, q := range [][2]string{{"ns1/pod", "ns1/dep-1"}, {"ns1/dep-1", "ns2/ds-1"}, {"ns2/ds-1", "ns1/pod"}, {"10.1.2.3", "ns1/pod"}, {"ns1/owned-x0", "ns2/job-1"}} {
+			res := e2.Check(q[0], q[1], "TCP", "80")
+			r.Ev("entry_point_runs", 1)
+			if res.Panic != "" {
+				crash("CheckIfAllowed("+q[0]+","+q[1]+") after InsertObject", res.Panic)
+			}
+		}
 		for i := range objs {
 			if o := observe.RuntimeObject(&objs[i]); o != nil && c.Idx%3 == 0 {
 				if res := e2.Delete(o); res.Panic != "" {
